@@ -1018,7 +1018,22 @@ func ConstArr(s *Sort, v *Term) *Term {
 	return raw("constarr", s, v)
 }
 
+var selectMemo = map[[2]*Term]*Term{}
+
 func Select(a, i *Term) *Term {
+	k := [2]*Term{a, i}
+	if r, ok := selectMemo[k]; ok {
+		return r
+	}
+	r := select1(a, i)
+	if len(selectMemo) > 4000000 {
+		selectMemo = map[[2]*Term]*Term{}
+	}
+	selectMemo[k] = r
+	return r
+}
+
+func select1(a, i *Term) *Term {
 	if a.S.K != SArr {
 		panic("select on non-array " + a.S.str)
 	}
